@@ -16,6 +16,9 @@ def bootstrap(pin_hashseed: bool = True) -> None:
         env = dict(os.environ)
         env["PYTHONHASHSEED"] = "0"
         os.execve(sys.executable, [sys.executable] + sys.argv, env)
+    off = os.environ.get("VERIF_CLOCK_OFFSET")
+    if off:
+        _shift_real_clock(float(off))
     root = repo_root()
     # the tree under test wins over the editable install in /venv
     if sys.path[0] != root:
@@ -28,3 +31,25 @@ def bootstrap(pin_hashseed: bool = True) -> None:
     got = os.path.dirname(os.path.dirname(os.path.abspath(flumine.__file__)))
     if os.path.realpath(got) != os.path.realpath(root):
         raise RuntimeError("flumine imported from %s, expected %s" % (got, root))
+
+
+def _shift_real_clock(offset: float) -> None:
+    """C14: make the *real* wall clock of this interpreter wrong by `offset` seconds."""
+    import datetime as dt
+    import time
+
+    real = dt.datetime
+    delta = dt.timedelta(seconds=offset)
+
+    class ShiftedDateTime(real):
+        @classmethod
+        def utcnow(cls):
+            return real.utcnow() + delta
+
+        @classmethod
+        def now(cls, tz=None):
+            return real.now(tz) + delta
+
+    dt.datetime = ShiftedDateTime
+    real_time = time.time
+    time.time = lambda: real_time() + offset
